@@ -107,6 +107,24 @@ func placeFlags(pos int, layout string, cmd []string, b, e *string, decoy string
 }
 
 func runC06(c *core.Ctx) {
+	// plus period-aware command shapes drawn from the catalogue (renderer x selector x presentation flags)
+	{
+		r := c.Rng("shapes", 0)
+		have := map[string]bool{}
+		for _, cmd := range c06Cmds {
+			have[joinArgs(cmd.args)] = true
+		}
+		for n := 0; n < 4; {
+			sp := randomCmd(r, "kcal", "a", "DATE")
+			if have[joinArgs(sp.Args)] || !sp.Log || sp.Args[0] == "stats" || sp.Args[0] == "summary" {
+				continue
+			}
+			have[joinArgs(sp.Args)] = true
+			sub := sp.Args[0] == "reg" || sp.Args[0] == "bal" || sp.Args[0] == "print" || (sp.Args[0] == "csv" && sp.Args[1] == "log")
+			c06Cmds = append(c06Cmds, c06Cmd{sp.Args, sub})
+			n++
+		}
+	}
 	c.SetRule("cases: (1) exhaustive window: 6 consecutive dates across a month end (2021-02-26..03-03), a leap day (2020-02-27..03-03), the end of a leap year and of a common year (12-29..01-03), and the days on which DST starts at local midnight in America/Santiago and America/Havana, logs = shuffled multisets of days over the window, (b,e) over {absent, day before, each of the 6, day after}^2 = 81 pairs incl. equal and inverted, x 11 period-aware command shapes x flag positions {global, sub-command, global decoy overridden by sub-command for -b / for -e} x TZ {UTC, America/Los_Angeles, Asia/Tokyo, Pacific/Kiritimati}; (2) keywords today/yesterday/last7/last30 against --today with days at T-31,-30,-8,-7,-1,0,+1, and summary today|yesterday|DATE; (3) four date layouts for file, flags and --today; (4) random logs and periods. Oracle (metamorphic, byte-exact): output with period == output of the same command on the log with the other days deleted and no period (run once, TZ=UTC); keyword == its explicit date. Non-trivial = period that selects a proper non-empty subset; distinct = hash(log, argv, TZ).")
 	c.Assume("every run passes --today; without it the keywords are resolved against the wall clock, which no deterministic oracle can use")
 	for _, z := range c06Zones[1:] {
